@@ -18,7 +18,7 @@ import signal
 import sys
 import time
 
-from .. import boot, canon, pool
+from .. import boot, canon, findings, pool
 from .. import c15_gen as gen
 
 ID = 'C15'
@@ -26,22 +26,32 @@ BUDGET = {'quick': 300, 'thorough': 1500}
 
 # ---- calibration (unchanged tree, commit 7c19a04, configuration `stubs`; see _calibration_note)
 # maximum work of one query observed over family (a), both tiers, per query method
-CAL_MAX_STEPS = {}
-CAL_MAX_INFERS = 0
+CAL_MAX_STEPS = {}          # {tier: {method: steps}}
+CAL_MAX_INFERS = {}         # {tier: count}
 # maximum work of one query at n = 64 observed per scaling family
 CAL_STEPS64 = {}
 FACTOR = 20
 GROWTH = 8              # steps(2n) <= GROWTH * steps(n) + GROWTH_C   for n >= 8
 GROWTH_C = 5000
 NS = [1, 2, 4, 8, 16, 32, 64]
-WATCHDOG_S = 120
+WATCHDOG_S = 120          # CPU seconds of the worker per program (ITIMER_VIRTUAL: load independent)
+WATCHDOG_WALL_S = 1800    # last resort for a worker blocked without using CPU
 STOP_AFTER_VIOLATIONS = 40
 
 METHODS = ['infer', 'goto', 'help', 'get_references', 'get_signatures', 'complete']
 
 
-def budget_for(method):
-    return FACTOR * CAL_MAX_STEPS.get(method, max(CAL_MAX_STEPS.values() or [50000]))
+def budget_for(method, tier=None):
+    cal = CAL_MAX_STEPS.get(tier or _TIER[0]) or CAL_MAX_STEPS.get('thorough') or {}
+    return FACTOR * cal.get(method, max(cal.values() or [50000]))
+
+
+def infers_budget(tier=None):
+    v = CAL_MAX_INFERS.get(tier or _TIER[0]) or CAL_MAX_INFERS.get('thorough') or 0
+    return FACTOR * v
+
+
+_TIER = ['quick']
 
 
 def budget64(family):
@@ -140,6 +150,7 @@ def _init():
     _install_counter()
     _install_warning_tap()
     signal.signal(signal.SIGALRM, _alarm)
+    signal.signal(signal.SIGVTALRM, _alarm)
     # warm the process-wide caches (typeshed stubs) so that counts do not depend on which
     # program a worker happens to see first
     root = os.path.join(boot.scratch_root(), 'c15warm-%d' % os.getpid())
@@ -166,6 +177,10 @@ def probes_of(text, from_line=1, with_refs_on_attrs=False):
     for ln, line in enumerate(text.split('\n'), 1):
         if ln < from_line:
             continue
+        if line.endswith('.'):
+            # `<probe>.` repeats the line before it: only the completion after the last dot
+            out.append(('complete', ln, len(line)))
+            continue
         for m in NAME_RE.finditer(line):
             for meth in ('infer', 'goto', 'help', 'get_references'):
                 out.append((meth, ln, m.start() + 1))
@@ -180,8 +195,6 @@ def probes_of(text, from_line=1, with_refs_on_attrs=False):
         if not stripped.startswith(('def ', 'class ')):
             for m in re.finditer(r'[\w)\]]\(', line):
                 out.append(('get_signatures', ln, m.end()))
-        if line.endswith('.'):
-            out.append(('complete', ln, len(line)))
     return out
 
 
@@ -302,8 +315,10 @@ def _work(task):
     if _C.warnings is not None:
         _C.warnings.clear()
     aborted = False
+    calibrating = False
     counter_broken = None
-    signal.alarm(int(task.get('watchdog', WATCHDOG_S)))
+    signal.setitimer(signal.ITIMER_VIRTUAL, float(task.get('watchdog', WATCHDOG_S)))
+    signal.alarm(WATCHDOG_WALL_S)
     t0 = time.time()
     cpu0 = time.process_time()
     try:
@@ -317,11 +332,12 @@ def _work(task):
                     break
                 limit = task.get('limit')
                 if limit is None:
-                    limit = budget_for(method)
+                    limit = budget_for(method, task.get('tier'))
                     if task['kind'] == 'scale':
                         limit = max(limit, budget64(task['family']))
                 elif limit == 0:
                     limit = None     # calibration: count only
+                    calibrating = True
                 env = boot.environment()
                 r = _one_query(jedi, env, project, code, path, method, line, col, limit)
                 nq += 1
@@ -341,10 +357,11 @@ def _work(task):
                 if task['kind'] == 'scale':
                     table[label] = r['steps']
                 f = r['fail']
-                if f is None and CAL_MAX_INFERS and r['infers'] > FACTOR * CAL_MAX_INFERS:
+                ib = infers_budget(task.get('tier'))
+                if f is None and ib and not calibrating and r['infers'] > ib:
                     f = {'site': 'infer-count-exceeded@%s' % method, 'cls': 'budget',
                          'tb': 'sum(inferred_element_counts) = %d > %d x %d'
-                               % (r['infers'], FACTOR, CAL_MAX_INFERS)}
+                               % (r['infers'], FACTOR, ib // FACTOR)}
                 if f is not None:
                     f = dict(f, probe=[rel, method, line, col], steps=r['steps'],
                              infers=r['infers'])
@@ -359,6 +376,7 @@ def _work(task):
         return {'watchdog': True, 'steps_at_alarm': steps, 'nq': nq,
                 'wall': round(time.time() - t0, 1)}
     finally:
+        signal.setitimer(signal.ITIMER_VIRTUAL, 0)
         signal.alarm(0)
         _C.limit = None
     files_out = files if (fails or only or not task.get('lean')) else None
@@ -378,8 +396,26 @@ def _cycle3(atoms):
             and sorted(j for _, j, _ in atoms) == [0, 1, 2] and all(i != j for i, j, _ in atoms))
 
 
+def _cyclic(atoms):
+    succ = {}
+    for i, j, _ in atoms:
+        succ.setdefault(i, set()).add(j)
+    for start in succ:
+        todo = list(succ[start])
+        seen = set()
+        while todo:
+            x = todo.pop()
+            if x == start:
+                return True
+            if x not in seen:
+                seen.add(x)
+                todo.extend(succ.get(x, ()))
+    return False
+
+
 def _levels(tier):
     """-> [(level name, [graph ids])], simplest first; ids are unique across levels."""
+    import itertools
     seen = set()
     levels = []
 
@@ -392,42 +428,53 @@ def _levels(tier):
                 ids.append(gid)
         levels.append((name, ids))
 
-    small = []
-    for n, m in [(1, 1), (1, 2), (2, 1), (2, 2), (3, 2)]:
-        small.extend(gen.graphs(n, m))
-    add('all graphs, <=3 nodes, <=2 atoms, pure', [(a, 'p') for a in small])
-    add('all graphs, <=3 nodes, <=2 atoms, with base definitions', [(a, 'b') for a in small])
+    small2 = []
+    for n, m in [(1, 1), (1, 2), (2, 1), (2, 2)]:
+        small2.extend(gen.graphs(n, m))
+    small3 = gen.graphs(3, 2)
     sh = {n: gen.shapes(n) for n in (1, 2, 3)}
+    sh3_sparse = [s for s in sh[3] if len(s) <= 4]
+    sh3_dense = [s for s in sh[3] if len(s) > 4]
     singles = gen.kind_sets(1)
     pairs = [k for k in gen.kind_sets(2) if len(k) == 2]
-    add('uniform: every shape on <=3 nodes x 1 kind on every arc',
-        [(gen.uniform(s, k), 'p') for n in (1, 2, 3) for s in sh[n] for k in singles])
     g33 = gen.graphs(3, 3)
-    add('3-cycles, every kind triple', [(a, 'p') for a in g33 if _cycle3(a)])
-    add('uniform: every shape on <=2 nodes x 2 kinds on every arc',
-        [(gen.uniform(s, k), 'p') for n in (1, 2) for s in sh[n] for k in pairs])
+    cyc3 = [a for a in g33 if _cycle3(a)]
+    add('all graphs, <=3 nodes, <=2 atoms, pure', [(a, 'p') for a in small2 + small3])
+    add('all cyclic graphs, <=2 nodes, <=2 atoms, with base definitions',
+        [(a, 'b') for a in small2 if _cyclic(a)])
+    add('uniform: every shape on <=2 nodes and every shape with <=3 arcs on 3 nodes x 1 kind',
+        [(gen.uniform(s, k), 'p') for s in sh[1] + sh[2] + sh3_sparse if len(s) <= 3
+         for k in singles])
+    add('3-cycles, every kind triple', [(a, 'p') for a in cyc3])
+    add('uniform: every shape on <=2 nodes with <=3 arcs x 2 kinds on every arc',
+        [(gen.uniform(s, k), 'p') for s in sh[1] + sh[2] if len(s) <= 3 for k in pairs])
     if tier == 'quick':
         return levels
-    add('3-cycles, every kind triple, with base definitions',
-        [(a, 'b') for a in g33 if _cycle3(a)])
-    add('uniform: every shape on 3 nodes x 2 kinds on every arc',
-        [(gen.uniform(s, k), 'p') for s in sh[3] for k in pairs])
+    add('all other graphs, <=3 nodes, <=2 atoms, with base definitions',
+        [(a, 'b') for a in small2 + small3])
+    add('uniform: every shape with 4 arcs on <=3 nodes x 1 kind',
+        [(gen.uniform(s, k), 'p') for s in sh[2] + sh3_sparse if len(s) == 4 for k in singles])
+    add('uniform: the 4-arc shape on 2 nodes x 2 kinds',
+        [(gen.uniform(s, k), 'p') for s in sh[2] if len(s) > 3 for k in pairs])
+    add('3-cycles, every kind triple, with base definitions', [(a, 'b') for a in cyc3])
+    add('uniform: every shape with >4 arcs on 3 nodes x 1 kind',
+        [(gen.uniform(s, k), 'p') for s in sh3_dense for k in singles])
     add('all graphs, 2 nodes, 3 atoms', [(a, 'p') for a in gen.graphs(2, 3)])
-    add('all graphs, 3 nodes, 3 atoms', [(a, 'p') for a in g33])
     sh4 = gen.shapes(4, 4)
     add('uniform: every shape on 4 nodes with <=4 arcs x 1 kind',
         [(gen.uniform(s, k), 'p') for s in sh4 for k in singles])
     cyc4 = []
-    import itertools
     seen4 = set()
     for ks in itertools.product(gen.KINDS, repeat=4):
-        rots = [ks[i:] + ks[:i] for i in range(4)]
-        c = min(rots)
+        c = min(ks[i:] + ks[:i] for i in range(4))
         if c in seen4:
             continue
         seen4.add(c)
         cyc4.append(tuple((i, (i + 1) % 4, c[i]) for i in range(4)))
     add('4-cycles, every kind quadruple', [(a, 'p') for a in cyc4])
+    add('all graphs, 3 nodes, 3 atoms', [(a, 'p') for a in g33])
+    add('uniform: every shape with <=3 arcs on 3 nodes x 2 kinds',
+        [(gen.uniform(s, k), 'p') for s in sh[3] if len(s) <= 3 for k in pairs])
     return levels
 
 
@@ -471,7 +518,8 @@ def _scaling_verdicts(tables, emit):
 
 def run(ctx):
     calibrate = bool(os.environ.get('JV_C15_CALIBRATE'))
-    if not CAL_MAX_STEPS and not calibrate:
+    _TIER[0] = ctx.tier
+    if not CAL_MAX_STEPS.get(ctx.tier) and not calibrate:
         ctx.harness_error('C15 is not calibrated (CAL_MAX_STEPS empty)')
         return
     states = transitions = 0
@@ -489,9 +537,12 @@ def run(ctx):
     stopped_early = False
     cpu = [0.0, 0]
 
+    known = findings.load(ID)
+
     def violation(site, input_id, detail, case):
         nonlocal nviol
-        nviol += 1
+        if not any(e['site'] == site and input_id in e['_inputs'] for e in known):
+            nviol += 1          # listed known findings do not count towards the early stop
         ctx.violation(site, input_id, detail, case)
 
     def absorb_result(t, r, level):
@@ -502,7 +553,7 @@ def run(ctx):
                 violation('hang@program', t['id'], {'steps_at_alarm': r['steps_at_alarm'],
                                                     'wall': r['wall']}, {'task': t})
             else:
-                ctx.harness_error('%s: task %s hit the %d s wall-clock watchdog with only %d '
+                ctx.harness_error('%s: task %s hit the watchdog (%d CPU-s) with only %d '
                                   'counted steps in the running query (not a verdict)'
                                   % (level, t['id'], WATCHDOG_S, r['steps_at_alarm']))
             return
@@ -527,7 +578,7 @@ def run(ctx):
                       {'files': r['files'], 'probe': f['probe'], 'observed': f['tb'],
                        'steps': f['steps'], 'infers': f['infers'],
                        'budget': None if calibrate else budget_for(method)},
-                      {'task': {k: v for k, v in t.items() if k != 'lean'},
+                      {'task': {k: v for k, v in t.items() if k not in ('lean', 'limit')},
                        'probe': f['probe']})
 
     # ---- (a) definition graphs
@@ -545,7 +596,7 @@ def run(ctx):
             exhaustive = False
             ctx.note('level "%s" not started (time cap)' % name)
             continue
-        tasks = [{'kind': 'graph', 'id': gid, 'lean': True} for gid in ids]
+        tasks = [{'kind': 'graph', 'id': gid, 'lean': True, 'tier': ctx.tier} for gid in ids]
         if calibrate:
             for t in tasks:
                 t['limit'] = 0
@@ -556,7 +607,7 @@ def run(ctx):
             if i in pres.crashed:
                 violation('WorkerDied@program', t['id'],
                           {'exit': pres.crashed[i], 'files': gen.render(*gen.parse_graph_id(
-                              t['id']))['files']}, {'task': {'kind': 'graph', 'id': t['id']}})
+                              t['id']))['files']}, {'task': {'kind': 'graph', 'id': t['id'], 'tier': ctx.tier}})
                 continue
             r = pres.results.get(i)
             if r is None:
@@ -579,7 +630,7 @@ def run(ctx):
                             'files': gen.render(*gen.parse_graph_id(mid))['files']})
         level_cost[name] = {'programs': len(tasks), 'worker_cpu_s': round(cpu[0] - cpu_before[0], 1),
                             'steps': cpu[1] - cpu_before[1]}
-        if nviol >= STOP_AFTER_VIOLATIONS:
+        if nviol >= STOP_AFTER_VIOLATIONS and not calibrate:
             stopped_early = True
             ctx.note('stopping after level "%s": %d violations already' % (name, nviol))
 
@@ -590,6 +641,8 @@ def run(ctx):
     if not stopped_early and ctx.time_left() > 10 and (not only_levels or 's' in only_levels):
         cpu_before = list(cpu)
         tasks = _scale_tasks()
+        for t in tasks:
+            t['tier'] = ctx.tier
         if calibrate:
             for t in tasks:
                 t['limit'] = 0
@@ -601,7 +654,7 @@ def run(ctx):
         for i, t in enumerate(tasks):
             if i in pres.crashed:
                 violation('WorkerDied@program', t['id'], {'exit': pres.crashed[i]},
-                          {'task': {k: v for k, v in t.items() if k != 'lean'}})
+                          {'task': {k: v for k, v in t.items() if k not in ('lean', 'limit')}})
                 continue
             r = pres.results.get(i)
             if r is None:
@@ -621,6 +674,8 @@ def run(ctx):
         else:
             done_levels.append('scaling: %d families x n in %s' % (len(gen.SCALING), NS))
         ngrowth = _scaling_verdicts(tables, violation)
+        samples.append({'level': 'scaling', 'id': 's:call_tree:2',
+                        'files': gen.scaling('call_tree', 2)['files']})
         level_cost['scaling'] = {'programs': len(tasks), 'worker_cpu_s': round(cpu[0] - cpu_before[0], 1),
                                  'steps': cpu[1] - cpu_before[1]}
     else:
@@ -633,8 +688,8 @@ def run(ctx):
         series[fam] = {str(n): max([s for _, s in tab] or [0]) for n, tab in sorted(by_n.items())}
     if calibrate:
         print('CALIBRATION (paste into jv/props/c15.py):')
-        print('CAL_MAX_STEPS = %r' % {m: v[0] for m, v in sorted(obs_max.items())})
-        print('CAL_MAX_INFERS = %r' % obs_max_infers)
+        print('CAL_MAX_STEPS[%r] = %r' % (ctx.tier, {m: v[0] for m, v in sorted(obs_max.items())}))
+        print('CAL_MAX_INFERS[%r] = %r' % (ctx.tier, obs_max_infers))
         print('CAL_STEPS64 = %r' % dict(sorted(obs64.items())))
     ctx.coverage.update({
         'states': states, 'transitions': transitions, 'evaluations': transitions,
@@ -678,8 +733,9 @@ def run(ctx):
         'node; programs are not required to run (self inheritance, import cycles)',
         'completion is asked after dots only; get_references on payload attributes only in '
         'main.py',
-        'the wall-clock watchdog (%d s per program) never produces a verdict on its own'
-        % WATCHDOG_S,
+        'the watchdog (%d CPU-seconds / %d wall seconds per program) never produces a verdict on '
+        'its own: without an exceeded step budget it is reported as a harness error'
+        % (WATCHDOG_S, WATCHDOG_WALL_S),
     ]
 
 
